@@ -146,8 +146,9 @@ def gen_cases(tier, seed):
         lc = conv_len("C")
         for k in range(0, lc + 1, 2):
             cases.append({"kind": "close", "conv": "C", "offset": k, "tag": "close"})
-    for i in range(6 if tier == "quick" else 120):
-        cases.append({"kind": "concurrent", "k": rng.choice([3, 4, 6]), "max_len": rng.choice([256, 1024, 4096]), "i": i, "tag": "concurrent"})
+    # maximum lengths above 4096 make every P-DATA body take several socket reads, so the associations are mid-read at the same time
+    for i in range(10 if tier == "quick" else 150):
+        cases.append({"kind": "concurrent", "k": rng.choice([3, 4, 6]), "max_len": (16382, 8192, 256, 1024, 4096)[i % 5], "i": i, "tag": "concurrent"})
     return cases
 
 
